@@ -23,7 +23,9 @@ def graph_cases(draw, tier):
     graph = draw(gens.arc_subsets(1, kmax, {1: 2, 2: 4, 3: 4, 4: 2, 5: 1, 6: 1}))
     n = 4 ** graph["k"]
     queries = draw(st.lists(st.tuples(st.integers(0, n - 1), st.integers(0, 4)), min_size=1, max_size=4))
-    return {"graph": graph, "queries": [list(q) for q in queries]}
+    return {"graph": graph, "queries": [list(q) for q in queries],
+            "matrix_dtype": draw(st.sampled_from(["int64", "int64", "uint8", "bool", "int32", "uint16", "float64"])),
+            "verbose": draw(st.integers(0, 3)) == 0, "layout": draw(st.sampled_from([None, None, "F", "strided"]))}
 
 
 def leaf_multiset(rows, k, v, depth):
@@ -45,14 +47,15 @@ def evaluate_graph(case):
     k, rows = graph["k"], graph["rows"]
     n = 4 ** k
     table = o.succ_table(k)
-    acc = gens.accessor_of(graph)
-    snapshot = acc.copy()
+    acc = gens.accessor_of(graph, case.get("layout"))
+    snapshot = numpy.ascontiguousarray(acc).copy()
+    verbose = bool(case.get("verbose"))
     degrees = {o.out_degree(rows, v) for v in range(n)}
-    labels = ["k=%d" % k]
+    labels = ["k=%d" % k] + (["verbose"] if verbose else []) + (["layout"] if case.get("layout") else [])
     nontrivial = bool(degrees & {1, 2, 3}) and 0 in degrees
     with_arcs = [v for v in range(n) if rows[v]]
 
-    latter_map = lib_call(dsw.accessor_to_latter_map, accessor=acc)
+    latter_map = lib_call(dsw.accessor_to_latter_map, accessor=acc, verbose=verbose)
     if isinstance(latter_map, Raised):
         return bad("accessor_to_latter_map raised %r" % latter_map, labels)
     if sorted(int(key) for key in latter_map) != with_arcs:
@@ -62,7 +65,7 @@ def evaluate_graph(case):
         want = sorted(table[int(key)][j] for j in o.live(rows, int(key)))
         if sorted(int(x) for x in values) != want:
             return bad("latter map lists %r for vertex %d, live successors are %r" % (values, int(key), want), labels)
-    back = lib_call(dsw.latter_map_to_accessor, latter_map=latter_map, observed_length=k)
+    back = lib_call(dsw.latter_map_to_accessor, latter_map=latter_map, observed_length=k, verbose=verbose)
     if isinstance(back, Raised) or not numpy.array_equal(back, snapshot):
         return bad("accessor -> latter map -> accessor is not the identity (k=%d): %r" % (k, back), labels)
 
@@ -71,7 +74,7 @@ def evaluate_graph(case):
         return bad("obtain_vertices returned %r, vertices with arcs are %r" % (listed, with_arcs[:12]), labels)
 
     if k <= (4 if len(case["queries"]) else 4) and n <= 1024:
-        matrix = lib_call(dsw.accessor_to_adjacency_matrix, accessor=acc)
+        matrix = lib_call(dsw.accessor_to_adjacency_matrix, accessor=acc, verbose=verbose)
         if isinstance(matrix, Raised):
             return bad("accessor_to_adjacency_matrix raised %r" % matrix, labels)
         want = numpy.zeros((n, n), dtype=int)
@@ -79,10 +82,15 @@ def evaluate_graph(case):
             want[u, w] = 1
         if tuple(matrix.shape) != (n, n) or not numpy.array_equal(matrix, want):
             return bad("adjacency matrix does not have a 1 exactly at the arcs (k=%d)" % k, labels)
-        back = lib_call(dsw.adjacency_matrix_to_accessor, matrix=matrix)
+        back = lib_call(dsw.adjacency_matrix_to_accessor, matrix=matrix, verbose=verbose)
         if isinstance(back, Raised) or not numpy.array_equal(back, snapshot):
             return bad("accessor -> matrix -> accessor is not the identity (k=%d): %r" % (k, back), labels)
-        labels.append("matrix")
+        dtype = case.get("matrix_dtype", "int64")
+        typed = lib_call(dsw.adjacency_matrix_to_accessor, matrix=want.astype(dtype))
+        if isinstance(typed, Raised) or not numpy.array_equal(typed, snapshot):
+            return bad("adjacency matrix of dtype %s is not converted to the accessor of the same graph (k=%d): %r"
+                       % (dtype, k, typed), labels)
+        labels += ["matrix", "matrix_dtype:" + dtype]
 
     for v, depth in case["queries"]:
         want = leaf_multiset(rows, k, v, depth)
@@ -93,7 +101,7 @@ def evaluate_graph(case):
                            % (v, depth, name, got, depth, sorted(want.elements())[:20]), labels)
         if depth >= 2 and len(want) != sum(want.values()):
             labels.append("leaf_duplicates")
-    if not numpy.array_equal(acc, snapshot):
+    if not numpy.array_equal(numpy.asarray(acc), snapshot):
         return bad("a conversion modified the accessor", labels)
     return Outcome(True, nontrivial, labels)
 
@@ -143,7 +151,7 @@ def evaluate_illegal(case):
 
 SUBCHECKS = [
     SubCheck("representations", evaluate_graph, strategy=graph_cases, examples=(2500, 25000), shards=(16, 16),
-             floors={"matrix": 500, "leaf_duplicates": 50, "k=3": 200}, rule=RULE),
+             floors={"matrix": 500, "leaf_duplicates": 50, "k=3": 200, "matrix_dtype:uint8": 100, "verbose": 200}, rule=RULE),
     SubCheck("illegal_order2_all", evaluate_illegal, enum=(enum_illegal_size, enum_illegal_case), shards=(4, 4),
              exhaustive_space="every single non-shift arc (16 x 12) added to the empty and to the complete order-2 "
                               "adjacency matrix", rule=RULE),
